@@ -358,6 +358,11 @@ func (s *Sim) fastYield(g uint64, site string) bool {
 		s.mu.Unlock()
 		return false
 	}
+	if s.cfg.StallSites != "" && s.cfg.StallPermille > 0 && int(s.stats.Stalls) < s.cfg.MaxStalls && matchAny(site, s.cfg.StallSites) {
+		// a site where a stall fault may be placed: the scheduler has to see the task parked exactly here
+		s.mu.Unlock()
+		return false
+	}
 	p := s.cfg.SwitchProb
 	if s.cfg.PreferSites != "" && matchAny(site, s.cfg.PreferSites) {
 		p = 0.5
